@@ -324,4 +324,76 @@ def h2cFieldElems (curve : String) (dst msg : ByteArray) : Option (List (List Na
 def defaultDst? (curve : String) : Option ByteArray :=
   (genSuite? curve).map fun G => (Gen.H2CMaps.appTag ++ G.suite).toUTF8
 
+/-! ### the regenerated suite constants against the published ones
+
+`constantFailures` lists the names of the checks that fail; `Props/C19H2C.lean` proves it empty by `decide`.
+Checked per suite: `L`, `m`, the expander, the suite string, `Z`, `A'`, `B'`, the cofactor-clearing scalar against
+`h_eff`, and the defining relations of the square-root constants (`4·c1 + 3 = p`, `c2² = -Z` for `q ≡ 3 mod 4`;
+2-adicity constants of the generic `sqrt_ratio`; `c3² = -1`, `c2⁴ = -4`, `8·c4 + 5 = p`, `c1² = -(J+2)`,
+`d·(J+2) = -(J-2)` for curve25519/edwards25519). -/
+
+open Gen.H2CMaps in
+def constantChecks : List (String × Bool) :=
+  let sq (x p : Nat) := x * x % p
+  let rfc (c : String) (f : RfcSuite → Bool) : Bool := match rfcSuite? c with
+    | some S => f S
+    | none => false
+  let p25519 := Curves.ed25519.p
+  [ ("appTag", appTag == "bron_crypto_with-"),
+    -- secp256k1
+    ("k256.suite", rfc "k256" fun S => S.id == k256.hash2CurveSuite && S.L == k256.hashL && S.expander == k256.expander && S.m == 1),
+    ("k256.scalar-suite", k256.hash2CurveScalarSuite == k256.hash2CurveSuite ++ "SC_"),
+    ("k256.ZAB", rfc "k256" fun S => S.Z == [k256.sswuZ] && S.A == [k256.sswuIsogenyA] && S.B == [k256.sswuIsogenyB]),
+    ("k256.mapper", k256.mapperKind == "sswu.ZeroPointMapper" && (rfc "k256" fun S => S.isogeny && S.hEff == k256.clearCofactorScalar)),
+    ("k256.sqrt", 4 * k256.sqrtRatioC1 + 3 == Curves.k256.p && (sq k256.sqrtRatioC2 Curves.k256.p + k256.sswuZ) % Curves.k256.p == 0),
+    -- P-256
+    ("p256.suite", rfc "p256" fun S => S.id == p256.hash2CurveSuite && S.L == p256.hashL && S.expander == p256.expander && S.m == 1),
+    ("p256.scalar-suite", p256.hash2CurveScalarSuite == p256.hash2CurveSuite ++ "SC_"),
+    ("p256.ZB", rfc "p256" fun S => S.Z == [p256.sswuZ] && S.B == [p256.curveB]),
+    ("p256.mapper", p256.mapperKind == "sswu.NonZeroPointMapper" && (rfc "p256" fun S => !S.isogeny && S.hEff == p256.clearCofactorScalar)),
+    ("p256.sqrt", 4 * p256.sqrtRatioC1 + 3 == Curves.p256.p && (sq p256.sqrtRatioC2 Curves.p256.p + p256.sswuZ) % Curves.p256.p == 0),
+    -- pallas / vesta
+    ("pallas.suite", rfc "pallas" fun S => S.id == pallas.hash2CurveSuite && S.L == pallas.hashL && S.expander == pallas.expander && S.m == 1),
+    ("pallas.ZAB", rfc "pallas" fun S => S.Z == [pallas.pallasSswuZ] && S.A == [pallas.pallasSswuIsogenyA] && S.B == [pallas.pallasSswuIsogenyB]),
+    ("pallas.mapper", pallas.mapperKind == "sswu.ZeroPointMapper" && (rfc "pallas" fun S => S.isogeny && S.hEff == pallas.clearCofactorScalar)),
+    ("pallas.sqrt", (Curves.pallas.p - 1) == 2 ^ pallas.pallasSqrtRatioC1 * (2 * pallas.pallasSqrtRatioC3 + 1)
+        && pallas.pallasSqrtRatioC4 + 1 == 2 ^ pallas.pallasSqrtRatioC1 && 2 * pallas.pallasSqrtRatioC5 == 2 ^ pallas.pallasSqrtRatioC1),
+    ("vesta.suite", rfc "vesta" fun S => S.id == vesta.hash2CurveSuite && S.L == vesta.hashL && S.expander == vesta.expander && S.m == 1),
+    ("vesta.ZAB", rfc "vesta" fun S => S.Z == [vesta.vestaSswuZ] && S.A == [vesta.vestaSswuIsogenyA] && S.B == [vesta.vestaSswuIsogenyB]),
+    ("vesta.mapper", vesta.mapperKind == "sswu.ZeroPointMapper" && (rfc "vesta" fun S => S.isogeny && S.hEff == vesta.clearCofactorScalar)),
+    ("vesta.sqrt", (Curves.vesta.p - 1) == 2 ^ vesta.vestaSqrtRatioC1 * (2 * vesta.vestaSqrtRatioC3 + 1)
+        && vesta.vestaSqrtRatioC4 + 1 == 2 ^ vesta.vestaSqrtRatioC1 && 2 * vesta.vestaSqrtRatioC5 == 2 ^ vesta.vestaSqrtRatioC1),
+    -- BLS12-381
+    ("g1.suite", rfc "bls12381g1" fun S => S.id == bls12381g1.hash2CurveSuite && S.L == bls12381g1.hashL && S.expander == bls12381g1.expander && S.m == bls12381g1.hashM),
+    ("g1.scalar-suite", bls12381g1.hash2CurveScalarSuite == bls12381g1.hash2CurveSuite ++ "SC_"),
+    ("g1.ZAB", rfc "bls12381g1" fun S => S.Z == [bls12381g1.g1SswuZ] && S.A == [bls12381g1.g1SswuIsogenyA] && S.B == [bls12381g1.g1SswuIsogenyB]),
+    ("g1.mapper", bls12381g1.mapperKind == "sswu.ZeroPointMapper" && bls12381g1.clearCofactorKind == "scalar"
+        && (rfc "bls12381g1" fun S => S.isogeny && S.hEff == bls12381g1.clearCofactorScalar)),
+    ("g1.sqrt", 4 * bls12381g1.g1SqrtRatioC1 + 3 == Curves.blsP && (sq bls12381g1.g1SqrtRationC2 Curves.blsP + bls12381g1.g1SswuZ) % Curves.blsP == 0),
+    ("g2.suite", rfc "bls12381g2" fun S => S.id == bls12381g2.hash2CurveSuite && S.L == bls12381g2.hashL && S.expander == bls12381g2.expander && S.m == bls12381g2.hashM),
+    ("g2.ZAB", rfc "bls12381g2" fun S => S.Z == [bls12381g2.g2SswuZ.1, bls12381g2.g2SswuZ.2] && S.A == [bls12381g2.g2SswuIsogenyA.1, bls12381g2.g2SswuIsogenyA.2]
+        && S.B == [bls12381g2.g2SswuIsogenyB.1, bls12381g2.g2SswuIsogenyB.2]),
+    ("g2.mapper", bls12381g2.mapperKind == "sswu.ZeroPointMapper" && bls12381g2.clearCofactorKind == "bls12381g2-psi"
+        && bls12381g2.blsX == 0xd201000000010000 && bls12381g2.blsX + 1 == bls12381g1.clearCofactorScalar
+        -- h_eff of G2 (RFC 9380 §8.8.2) = h2·(3x² − 3)
+        && (rfc "bls12381g2" fun S => S.isogeny && S.hEff == Curves.bls12381g2.h * (3 * bls12381g2.blsX * bls12381g2.blsX - 3))),
+    ("g2.sqrt", (Curves.blsP * Curves.blsP - 1) == 2 ^ bls12381g2.g2SqrtRatioC1 * (2 * bls12381g2.g2SqrtRatioC3 + 1)
+        && bls12381g2.g2SqrtRatioC4 + 1 == 2 ^ bls12381g2.g2SqrtRatioC1 && 2 * bls12381g2.g2SqrtRatioC5 == 2 ^ bls12381g2.g2SqrtRatioC1),
+    -- edwards25519 / curve25519: the code performs hash_to_curve (two field elements, "_RO_" in RFC 9380 terms) under a
+    -- suite string that says "_NU_"; the string only enters the default DST
+    ("ed.suite", rfc "ed25519" fun S => S.L == edwards25519.hashL && S.expander == edwards25519.expander && S.m == 1
+        && edwards25519.hash2CurveSuite == "edwards25519_XMD:SHA-512_ELL2_NU_" && S.id == "edwards25519_XMD:SHA-512_ELL2_RO_"
+        && edwards25519.curve25519Hash2CurveSuite == "curve25519_XMD:SHA-512_ELL2_NU_"),
+    ("ed.scalar-suite", edwards25519.hash2CurveScalarSuite == edwards25519.hash2CurveSuite ++ "SC_"),
+    ("ed.mapper", edwards25519.mapperKind == "elligator2.Edwards25519PointMapper" && edwards25519.clearCofactorKind == "double3"
+        && (rfc "ed25519" fun S => S.hEff == edwards25519.clearCofactorScalar && S.A == [curve25519Elligator2JLimbs])),
+    ("ed.consts", (sq curve25519Elligator2C3Limbs p25519 + 1) % p25519 == 0
+        && (sq (sq curve25519Elligator2C2Limbs p25519) p25519 + 4) % p25519 == 0
+        && 8 * curve25519Elligator2C4 + 5 == p25519
+        && (sq edwards25519Elligator2C1Limbs p25519 + curve25519Elligator2JLimbs + 2) % p25519 == 0
+        && (Curves.ed25519.b * (curve25519Elligator2JLimbs + 2) + (curve25519Elligator2JLimbs - 2)) % p25519 == 0
+        && edwards25519Elligator2C1Limbs % 2 == 0) ]
+
+def constantFailures : List String := (constantChecks.filter fun c => !c.2).map (·.1)
+
 end BronVerif.H2C
